@@ -714,14 +714,14 @@ pub fn check_c17(case: &Case, h: &History, alts: &[History]) -> Vec<Violation> {
             v.push(Violation::new(
                 "C17:state_changed_by_print{prompt}",
                 format!(
-                    "register trace differs from the same session without the print commands (first difference at step {:?}; {} vs {} steps)",
+                    "register trace differs from the same session without the print commands and rejected lines (first difference at step {:?}; {} vs {} steps)",
                     first, pa.len(), pb.len()
                 ),
             ));
         } else if h.final_mem() != ah.final_mem() {
             v.push(Violation::new(
                 "C17:state_changed_by_print{prompt}",
-                "final memory differs from the same session without the print commands".to_string(),
+                "final memory differs from the same session without the print commands and rejected lines".to_string(),
             ));
         }
     }
@@ -1247,6 +1247,20 @@ pub fn check_c20(case: &Case, h: &History, alts: &[History]) -> Vec<Violation> {
                                     "C20:next_not_one_step",
                                     format!("{:?} did not leave the prompt of instruction #{}", t, s.idx),
                                 ));
+                            } else if !s.followed && matches!(h.ended(), Some(Event::Exit(_))) && !is_int3(s.code)
+                                && h.panic().is_none() && s.events.iter().all(|e| !matches!(e, Event::Rec { origin: Origin::Service, .. } | Event::Line { who: Who::Service, .. }))
+                            {
+                                // the command was read (with or without a line end) and the emulator
+                                // left instead of running the instruction
+                                let hlt = code_class(s.code) == "hlt";
+                                let after: Vec<&Event> = s.events.iter().skip(ps.to).collect();
+                                let ran = after.iter().any(|e| matches!(e, Event::Rec { origin: Origin::Printer, .. } | Event::Rec { origin: Origin::RunLoop, .. }));
+                                if !hlt && !ran {
+                                    v.push(Violation::new(
+                                        "C20:next_did_not_advance",
+                                        format!("{:?} at the prompt of instruction #{} ({}) ended the emulator instead of executing it", t, s.idx, s.code),
+                                    ));
+                                }
                             }
                         }
                         PromptCmd::Quit => {
